@@ -169,7 +169,9 @@ var roleSpecs = []roleSpec{
 		})
 	}},
 	{"Interpreter.run", func(ic *IC) *FuncInfo {
-		return uniqueBy(ic, func(fi *FuncInfo) bool { return sigString(fi.Obj) == "*interp.Interpreter.(*interp.node,*interp.frame)()" })
+		return uniqueBy(ic, func(fi *FuncInfo) bool {
+			return sigString(fi.Obj) == "*interp.Interpreter.(*interp.node,*interp.frame)()"
+		})
 	}},
 	{"Interpreter.importSrc", func(ic *IC) *FuncInfo {
 		return uniqueBy(ic, func(fi *FuncInfo) bool {
@@ -213,7 +215,9 @@ var roleSpecs = []roleSpec{
 		})
 	}},
 	{"genGlobalVars", func(ic *IC) *FuncInfo {
-		return uniqueBy(ic, func(fi *FuncInfo) bool { return sigString(fi.Obj) == "([]*interp.node,*interp.scope)(*interp.node,error)" && !strings.Contains(fi.Obj.Name(), "Decl") })
+		return uniqueBy(ic, func(fi *FuncInfo) bool {
+			return sigString(fi.Obj) == "([]*interp.node,*interp.scope)(*interp.node,error)" && !strings.Contains(fi.Obj.Name(), "Decl")
+		})
 	}},
 	{"genRun", func(ic *IC) *FuncInfo {
 		return uniqueBy(ic, func(fi *FuncInfo) bool {
